@@ -352,6 +352,15 @@ func RunMeek(x *Ctx) {
 	}
 	// teardown: the application closes, every connection is cut, new dials fail
 	protect("Close", func() { conn.Close() })
+	if strings.HasPrefix(c.Gen, "stall") {
+		// observation only (outside the oracle): does Close() abort the round trip in flight while
+		// the peer merely stalls?  meek_lite has no deadline on a request.
+		if left, _ := meekLeft(500 * time.Millisecond); len(left) > 0 {
+			x.R.Count(c.Prefix()+"/note", "close-does-not-abort-inflight-request-while-peer-stalls")
+		} else {
+			x.R.Count(c.Prefix()+"/note", "close-aborts-inflight-request")
+		}
+	}
 	peer.shutdown()
 	// (not when the worker sits in its bounded retry sleep: Read then legitimately waits for it;
 	// and not in the backlog scenario: the application has stopped reading for good)
@@ -399,8 +408,12 @@ func leakSite(stack string) string {
 	op := "running"
 	if len(lines) > 0 {
 		if i, j := strings.Index(lines[0], "["), strings.Index(lines[0], "]"); i >= 0 && j > i {
-			op = strings.Fields(strings.ReplaceAll(lines[0][i+1:j], ",", " "))[0] + "-" + strings.Join(strings.Fields(strings.ReplaceAll(lines[0][i+1:j], ",", " "))[1:2], "")
-			op = strings.TrimSuffix(op, "-")
+			// "chan send", "sleep", "select, 2 minutes", "sync.Cond.Wait" ...
+			state := lines[0][i+1 : j]
+			if k := strings.Index(state, ","); k >= 0 {
+				state = state[:k]
+			}
+			op = strings.ReplaceAll(strings.TrimSpace(state), " ", "-")
 		}
 	}
 	fn := "unknown"
@@ -410,5 +423,5 @@ func leakSite(stack string) string {
 			fn = fn[i+1:]
 		}
 	}
-	return fn + "-" + strings.ReplaceAll(op, " ", "-")
+	return fn + "-" + op
 }
